@@ -163,8 +163,13 @@ def verify_function(repo, contracts, c, registry=None, scope=None, opts=None):
                 kwd = params.pop(kwname)
                 params.update(kwd)
             exc = None
+            star = []
+            vname = func.node.args.vararg.arg if func.node.args.vararg is not None else None
+            if vname is not None and vname in params:
+                # *args of the function under contract: the positional parameters are passed by position, then the extra ones
+                star = [params.pop(x.arg) for x in func.node.args.args if x.arg in params and x.arg != "self"] + list(params.pop(vname))
             try:
-                res = E.call_repo_function(func, [], params, closure_env=env, self_obj=self_obj)
+                res = E.call_repo_function(func, star, params, closure_env=env, self_obj=self_obj)
             except Raised as r:
                 exc = r
             vtag = "" if variant is None else "[%s]" % (variant,)
